@@ -5,7 +5,11 @@ jsonschema.validate(m, json.load(open('/root/.vp/MANIFEST.schema.json')))
 es = json.load(open('/root/.vp/EVIDENCE.schema.json'))
 for f in sorted(glob.glob('/verif/evidence/*.json')):
     try:
-        jsonschema.validate(json.load(open(f)), es)
+        d = json.load(open(f))
+        jsonschema.validate(d, es)
+        cov = d.get('coverage', {})
+        if not isinstance(cov.get('samples'), list) or len(cov['samples']) < 1:
+            raise Exception('coverage.samples empty')
         print('ok', f)
     except Exception as e:
         print('BAD', f, str(e)[:300])
